@@ -77,9 +77,13 @@ def token_sequence(draw):
     kind = "derivation"
     if names and draw(st.integers(0, 3)) > 0:
         g = ref.grammar()
-        op = draw(st.sampled_from(["delete", "insert", "substitute", "swap"]))
+        op = draw(st.sampled_from(["delete", "insert", "substitute", "swap", "delete2", "repeat2"]))
         i = draw(st.integers(0, len(names) - 1))
-        if op == "delete":
+        if op == "delete2":
+            names = names[:i] + names[i + 2:]
+        elif op == "repeat2":
+            names = names[:i + 2] + names[i:i + 2] + names[i + 2:]
+        elif op == "delete":
             names = names[:i] + names[i + 1:]
         elif op == "insert":
             names = names[:i] + [draw(st.sampled_from(g.token_names))] + names[i:]
@@ -422,6 +426,12 @@ def _edit_sequences(tier):
             if tier != "quick" or i % 3 == 0:
                 for n in names:
                     yield toks[:i] + [n] + toks[i:]
+            # two-token edits that keep list-like rules in step: drop or repeat an adjacent pair (", INT", "NEWLINE TAB" ...)
+            if i + 1 < len(toks):
+                yield toks[:i] + toks[i + 2:]
+                yield toks[:i + 2] + toks[i:i + 2] + toks[i + 2:]
+            if i + 2 < len(toks):
+                yield toks[:i] + toks[i + 3:]
 
 
 def _check_edit(names):
